@@ -319,6 +319,16 @@ def judge_text(case, res):
     asm = env.load_asm()
     st_ = ir.Style(style, kinds={'sep', 'reg', 'intbase', 'baseoff', 'indent'})
     src, _ = ir.render(items, st_)
+    # one line in eight spells its mnemonic in UPPER or Capitalised case: not a documented freedom, but the assembler takes it -
+    # and whatever it accepts must encode what the line says (a refusal would be fine and is only counted)
+    import re
+    cased = []
+    for i, ln in enumerate(src.splitlines()):
+        k = (style + i * 7) % 16
+        if k < 2:
+            ln = re.sub(r'^(\s*)(\S+)', lambda m: m.group(1) + (m.group(2).upper() if k == 0 else m.group(2).capitalize()), ln, count=1)
+        cased.append(ln)
+    src = '\n'.join(cased) + '\n'
     res.evaluations += len(items)
     try:
         out = bytes(asm.assemble(ALIAS_PRELUDE + src))
@@ -441,7 +451,7 @@ def _replay_text_line(line, out):
     """Own minimal reader for the canonical one-line sources this check writes (mnemonic + operands)."""
     import re
     toks = [t for t in re.split(r'[\s,()]+', line.split('#')[0].strip()) if t]
-    mn = toks[0]
+    mn = toks[0].lower()
     names = list(apimap.api_fields(mn))
     regmap = {('x%d' % i): i for i in range(32)}
     regmap.update({n: i for i, n in enumerate(ir.ABI)})
